@@ -342,8 +342,13 @@ pub trait BinRead {
     }
 
     fn read_byte_vec(&mut self, len: usize) -> Result<Vec<u8>, Self::Err> {
-        let mut buf = vec![0; len];
-        self.read_exact(&mut buf)?;
+        // `len` may come from a corrupt file, so grow the buffer only as the data actually arrives.
+        let mut buf = vec![];
+        while buf.len() < len {
+            let start = buf.len();
+            buf.resize(start + usize::min(len - start, 0x10000), 0);
+            self.read_exact(&mut buf[start..])?;
+        }
         Ok(buf)
     }
 
